@@ -37,7 +37,7 @@ RULE = ("fault space = every executed statement (LINE event) of NP2Converter.* a
 ASSUMPTIONS = ["crash = Python-level interruption at a statement boundary, or os._exit of the process; loss of unsynced page cache is not modelled",
                "stale but valid files of an earlier run (e.g. an old lf.cbin beside a fresh lf.bin) are not a violation: the property asks for a complete, valid set",
                "after the original has been deleted by a verified run the history ends (there is no input left to hand to the converter)"]
-REQUIRED = {"reused_converter_runs": 12, "torn_header_histories": 2, "crash_points_fired": 40, "distinct_crash_sites": 30, "history_steps": 60, "remove_original_judged": 3, "idempotence_checked": 8,
+REQUIRED = {"foreign_compressed_pairs_in_place": 6, "reused_converter_runs": 12, "torn_header_histories": 2, "crash_points_fired": 40, "distinct_crash_sites": 30, "history_steps": 60, "remove_original_judged": 3, "idempotence_checked": 8,
             "completeness_checked": 20, "recoverability_checked": 100, "corruptions_injected": 12, "originals_with_inconsistent_metadata": 5, "compression_faults_injected": 12, "long_rebuilds": 1, "long_rebuilds_rate_above_nominal": 1}
 CASE_TIMEOUT = 60.0
 MAX_PROCS = 14
@@ -326,7 +326,9 @@ def judge_step(res, root, rec, opts, overwrite, r, label, prior_complete, snap_b
     if r["status"] == 1:
         complete(res, root, rec, label, opts)
         if opts["delete_original"] and opts["post_check"] and kind.startswith("NP2.4"):
-            res.check(r["deleted"] and not any(p.exists() for p in orig_paths(root)), "delete:not-deleted", f"{label}: verified run with delete_original did not remove the original")
+            # (a foreign compressed pair that was lying next to a flat original is not the original: only the original's own file is expected to go)
+            gone = orig_paths(root)[:1] if getattr(rec, "foreign", False) else orig_paths(root)
+            res.check(r["deleted"] and not any(p.exists() for p in gone), "delete:not-deleted", f"{label}: verified run with delete_original did not remove the original")
         if kind.startswith("NP2.4") and not (opts["delete_original"] and opts["post_check"]):
             res.check(original_ok(root, rec), "delete:unrequested", f"{label}: the original disappeared although deletion was not requested/verified")
         return True
@@ -367,6 +369,11 @@ def gen_cases(seed, tier):
         kind, o1, steps = hist[i]
         cases.append({"cls": "history", "kind": kind, "opts": o1, "steps": list(steps), "cbin": bool(rng.integers(0, 2)), "change_opts": bool(rng.integers(0, 2)),
                       "seed": seed * 10000 + i, "_w": 1.5 * len(steps)})
+    # round 21: a foreign compressed pair of the original's own name already in the probe folder, every option set with compression, first and forced runs
+    for j, (kind, o1, steps) in enumerate([("NP2.1", 2, ("run",)), ("NP2.1", 3, ("overwrite",)), ("NP2.1", 6, ("run", "overwrite")), ("NP2.1", 7, ("run", "rerun")),
+                                           ("NP2.4", 7, ("run",)), ("NP2.4r", 2, ("overwrite", "rerun"))][: (6 if tier != "quick" else 6)]):
+        cases.append({"cls": "history", "kind": kind, "opts": o1, "steps": list(steps), "cbin": False, "change_opts": False, "foreign": True,
+                      "seed": seed * 10000 + 9000 + j, "_w": 1.5 * len(steps)})
     # covering core 2: every pair of compress settings across run -> rerun (and -> overwrite), other options fixed
     for kind in ("NP2.1", "NP2.4"):
         for c1 in (0, 2):
@@ -469,6 +476,17 @@ def run_case(case):
             res.nontrivial = True
             return res
         rec = make_original(rng, root, kind, case["cbin"])
+        if case.get("foreign"):
+            # round 21: the probe folder already holds a compressed pair with the name the in-place compression will publish (NAME.cbin + NAME.ch) - left
+            # by an earlier, shorter copy of the recording.  It holds OTHER samples: nothing in it makes the original dispensable
+            import mtscomp as _mt
+            _, recf = np2.build(rng, d / "foreign", kind=kind if kind != "NP2.4r" else "NP2.4", ns=int(rng.integers(700, 1400)), content="random",
+                                gain=np2.GAIN_PAIRS[int(rng.integers(0, 4))])
+            bo, co = orig_paths(root)
+            _mt.compress(orig_paths(d / "foreign")[0], out=co, outmeta=co.with_suffix(".ch"), sample_rate=recf.fs, n_channels=recf.nc, dtype=np.int16,
+                         chunk_duration=0.02, check_after_compress=False)
+            rec.foreign = True
+            res.count("foreign_compressed_pairs_in_place")
         prior = False
         holder = {} if case.get("reuse") else None
         for si, what in enumerate(case["steps"]):
@@ -490,7 +508,7 @@ def run_case(case):
                 break
         if holder and holder.get("conv") is not None:
             close_conv(holder["conv"])
-        res.sig = f"history-{kind}-{case['opts']}-{case['steps']}-{case['cbin']}-{case['change_opts']}-{bool(case.get('reuse'))}"
+        res.sig = f"history-{kind}-{case['opts']}-{case['steps']}-{case['cbin']}-{case['change_opts']}-{bool(case.get('reuse'))}-{bool(case.get('foreign'))}"
         res.nontrivial = len(case["steps"]) >= 2
         return res
     if cls == "long-rebuild":
